@@ -248,7 +248,14 @@ func (env *Env) build(st *Step) error {
 		}
 		return goerrors.New("domain only")
 	case "DecodeFault":
-		enc := faults.Build(st.S[0], st.A[0][0], st.A[1][0], st.A[2][0], tok.Num(st.A[3][0]), tok.Num(st.A[4][0]))
+		nd := 0
+		if d := st.A[3][0]; strings.HasPrefix(d, "s") {
+			// stack-like reportable strings
+			nd = -tok.Num("n" + d[1:])
+		} else {
+			nd = tok.Num(d)
+		}
+		enc := faults.Build(st.S[0], st.A[0][0], st.A[1][0], st.A[2][0], nd, tok.Num(st.A[4][0]))
 		res, p := faults.Decode(enc)
 		if p != "" {
 			panic(p)
